@@ -39,6 +39,7 @@ func runPrune(dir string, opts GlobalOptions, apply bool) (PrunePlan, error) {
 	eventsPath := getEventsPath(dir)
 	var plan PrunePlan
 	err := withLock(lockPath, syscall.LOCK_EX, func() error {
+		verifPoint("section", "Prune")
 		graph, err := loadGraph(dir)
 		if err != nil {
 			return err
